@@ -164,7 +164,7 @@ def build(P):
              contract=Contract(f"{TR}:TransformDict.transform", cut=False,
                                params={"self": registry, "key": lambda it: VTuple((TStr().fresh(it.ctx, "src"), FID.fresh(it.ctx, "dst"))),
                                        "args": lambda it: VTuple((vec(it, "p"),)), "kwargs": lambda it: it.ctx.new_cell("dict", ([], []))},
-                               requires=distinct_keys + E("lower_case_name", "key[0] == lower(key[0])"),
+                               requires=distinct_keys,      # any case of the name (an earlier version was restricted to lower-case names; the upper-case X -> X case was a defect, fixed 31122d3)
                                raises={"KeyError": "all([implies(lower(key[0]) == m.value, " + none_reg("m", "key[1]") + ") for m in FrameID])",
                                        "ValueError": "not any([lower(key[0]) == m.value for m in FrameID])"},
                                ensures=str_post),
